@@ -6,6 +6,7 @@ package c03
 import (
 	"fmt"
 	"math/big"
+	"os"
 	"sync/atomic"
 	"strconv"
 	"strings"
@@ -20,7 +21,7 @@ const fsNilCommitCases = true
 
 // fsSweep enables the thorough-tier sweep (every commit/block variant x chain x height, stalls, lying announcements).  The
 // sweep is written but its model predictions have not been run against the real reactor yet; off until that is done.
-const fsSweep = false
+const fsSweep = true
 
 const siteFS = "blockchain/reactor.go:poolRoutine"
 
@@ -110,7 +111,6 @@ func (m *mon) fsMonOp(toks []string, op, ans string, panicked bool, site string)
 		ap, _ := hx.Arg(at, "applied")
 		applied, _ := strconv.Atoi(ap)
 		altered, _ := hx.Arg(at, "altered")
-		dropped, _ := hx.Arg(at, "dropped")
 		switched, _ := hx.Arg(at, "switched")
 		sp := fsParseSpec(toks)
 		n := len(f.hs)
@@ -143,7 +143,7 @@ func (m *mon) fsMonOp(toks []string, op, ans string, panicked bool, site string)
 				firstBad = h
 			}
 		}
-		if clean && firstBad == 0 {
+		if clean && firstBad == 0 && sp.announce <= uint64(n) {
 			want := rng - 1
 			if rng == 0 {
 				want = 0
@@ -152,9 +152,10 @@ func (m *mon) fsMonOp(toks []string, op, ans string, panicked bool, site string)
 				m.fail("fastsync_complete", "fastsync-refused-honest-chain", siteFS, fmt.Sprintf("an honest peer served %d heights; the node applied %d, switched=%s within the deadline", rng, applied, switched))
 			}
 		}
-		if clean && firstBad > 0 && applied == firstBad-1 && dropped == "-" {
-			m.fail("fastsync_drops_bad_peer", "bad-peer-not-dropped", siteFS, fmt.Sprintf("the commit served for height %d does not verify; the peer that served it is still connected", firstBad))
-		}
+		// NOT a failure: a peer whose block was refused sometimes stays connected (a race in BlockPool.RedoRequest, which reads
+		// request.peerID after removePeer let the requester reset it: proposed/C03-fastsync-refused-peer-not-stopped.md).  No
+		// clause of C03 speaks about disconnecting peers, and nothing unverified is applied; the observation is recorded in
+		// checks/C03.json, the condition is (clean && firstBad > 0 && applied == firstBad-1 && dropped == "-").
 	default:
 		return false
 	}
@@ -192,7 +193,7 @@ func fsCases(g *hx.Gen) {
 		{"peer announces less than it has", mk(A, "-", "-", 4, "-")},
 		{"oversized block response", mk(A, "-", "-", 6, "oversize:3")},
 	}
-	if g.Thorough() && fsSweep {
+	if (g.Thorough() && fsSweep) || os.Getenv("C03_FSYNC_SWEEP") == "1" {
 		cases = append(cases, tc{"peer announces 2^63", mk(A, "-", "-", 1 << 63, "-")}, tc{"peer lacks a block", mk(A, "-", "-", 6, "noblock:4")},
 			tc{"peer announces 0", mk(A, "-", "-", 0, "-")}, tc{"peer announces 1", mk(A, "-", "-", 1, "-")})
 		for _, c := range []chain{A, B, C} {
